@@ -80,26 +80,31 @@ class Run:
         self.exported = []
 
     # ---------------------------------------------------------------- MIR
-    def interp(self, crate):
-        if crate in self.interps: return self.interps[crate]
+    def interp(self, crate, also=()):
+        """interpreter over the MIR of `crate` (plus the MIR of the crates in `also`, e.g. tuftool + tough)"""
+        key = crate if not also else crate + '+' + '+'.join(also)
+        if key in self.interps: return self.interps[key]
         path, info = dump.dump(crate)
         self.mir_info.append(info)
+        extra_paths = []
+        for c in also:
+            p2, i2 = dump.dump(c); self.mir_info.append(i2); extra_paths.append(p2)
         enums = dict(ENUMS)
         import layout
         enums.update(layout.all_enums())          # every enum of the three crates, variant order read from the current source
         for name, rel in SOURCE_ENUMS:
             o = enum_order_from_source(name, rel)
             if o: enums[name] = o
-        I = Interp([path], enums=enums, solver_timeout=self.timeout_ms)
+        I = Interp([path] + extra_paths, enums=enums, solver_timeout=self.timeout_ms)
         I.repo_root = REPO
         I.run_ctx = self
         # integrity: every `fn ` line of the dump must have become a function
-        nfn = sum(1 for l in open(path) if l.startswith('fn '))
+        nfn = sum(1 for pp in [path] + extra_paths for l in open(pp) if l.startswith('fn '))
         got = sum(len(v) for v in I.funcs.values())
         if nfn != got: raise Inconclusive(f'MIR parser lost functions: {nfn} in dump, {got} parsed')
         if I.parse_errors:
             self.notes.append(f'{crate}: {sum(I.parse_errors.values())} unparsed MIR lines (not in executed functions unless Stuck)')
-        self.interps[crate] = I
+        self.interps[key] = I
         self._mir_paths = getattr(self, '_mir_paths', {}); self._mir_paths[crate] = path
         return I
 
